@@ -284,6 +284,19 @@ func c08system(c *ctx) {
 				use(1 - a) // the other association has its own table
 			}
 		}
+		// provisioned, then a REJECTED request that re-provisions the same applications (its offending element belongs to an
+		// application the table in force holds): the table in force stays whole
+		w.pfd(0, tables[0], false)
+		w.pfd(0, tables[0], true)
+		w.pfd(0, []appPFD{tables[0][1], tables[0][0]}, true)
+		for _, id := range []string{"app1", "app0"} {
+			pdrs, fars, qers := w.genSession(0)
+			pdrs[1].App = strp(id)
+			w.nextCP++
+			if h, _ := w.est(0, w.nodes[0], w.nextCP, pdrs, fars, qers, "pfd-after-rejected-"+id); h != nil {
+				w.del(0, h.up, "pfd")
+			}
+		}
 		// provisioned, then emptied: PDRs that name a formerly provisioned application must not get its filter any more
 		w.pfd(0, tables[0], false)
 		w.pfd(0, nil, false)
